@@ -169,6 +169,8 @@ VTick(h, L) ==
       seids == {x.seid : x \in reg}
   IN UNION {
        V(Rng(got) = want /\ Len(got) = Cardinality(want), "C15:URRs queried on the tick differ from the URRs registered with that period"),
+       \* C03, last sentence: a URR created with the periodic trigger IS registered for periodic querying (until it is removed)
+       V(want \subseteq Rng(got), "C03:a URR with the periodic trigger is not (or no longer) registered for periodic querying with its period"),
        V(\A sd \in seids : Len(SelectSeq(srrs, LAMBDA o : o.seid = SessOf(h, sd).cp /\ o.to = NodePeer(SessOf(h, sd).node))) = 1,
          "C15:periodic reports of a session not delivered in exactly one report to its SMF"),
        V(Len(srrs) = Cardinality(seids), "C15:number of periodic session reports differs from the number of sessions with registered URRs"),
@@ -183,7 +185,11 @@ VTick(h, L) ==
          "C15:a periodic report was delivered to another session than the one it was measured for, or with other values") }
 \* one ticker per period that has a registered URR
 VTickers(h2, L) ==
-  V(L.tickers = Cardinality({x.period : x \in {y \in h2.urr : y.perio}}), "C15:number of period tickers differs from the number of periods with registered URRs")
+  UNION {
+    V(L.tickers = Cardinality({x.period : x \in {y \in h2.urr : y.perio}}), "C15:number of period tickers differs from the number of periods with registered URRs"),
+    \* fewer timers than periods with registered URRs: some registered URR is no longer queried periodically (C03, last sentence)
+    V(L.tickers >= Cardinality({x.period : x \in {y \in h2.urr : y.perio}}),
+      "C03:a period that still has registered URRs has lost its timer: they are no longer queried periodically") }
 
 \* ------------------------------------------------------------------ C10: usage reports multicast by the kernel
 TrigOfCause(c) == Encode(UsageReportTriggerTbl, CauseMap(c))
@@ -310,7 +316,11 @@ VerdictL2x(h, L, h2) ==
   IN IF h.skip \/ e.t = "init" THEN {}
      ELSE IF L.fatal # "" THEN {"C07:the UPF panicked or tried to exit", "C13:the UPF faulted"}
      ELSE UNION {
-       CASE e.t = "kbuf" -> VBuf(h, L)
+       CASE e.t = "kbuf" -> VBuf(h, L) \cup
+                            \* the apply-action word carries further flags and buffering / notification went wrong: the word was
+                            \* not taken flag by flag (C19: "a flag seen by the control plane is the flag the other side set")
+                            (IF (e.action \div 16 > 0 \/ BitSet(e.action, ACT_DROP) \/ BitSet(e.action, ACT_FORW)) /\ (VBuf(h, L) # {} \/ VQueues(h2, L) # {})
+                             THEN {"C19:buffering or notification did not follow the BUFF / NOCP flags of an apply-action word that carries further flags"} ELSE {})
          [] e.t = "mod" /\ e.seid \in LiveSeids(h) /\ UpdAA(e) # << >> -> VRelease(h, L)
          [] e.t = "tick" -> VTick(h, L)
          [] e.t = "krep" -> VKrep(h, L)
